@@ -447,6 +447,10 @@ func registerNatives(e *Engine) {
 	n["runtime.NumCPU"] = func(x *Exec, fr *frame, a []Value) Value { return uint64(1) }
 
 	registerTimeNatives(e)
+	registerStringNatives(e)
+	for _, f := range extraNatives {
+		f(e)
+	}
 }
 
 var errorIface = types.Universe.Lookup("error").Type().Underlying().(*types.Interface)
@@ -759,24 +763,6 @@ func (x *Exec) errorsAs(err, target Iface, depth int) Value {
 }
 
 // ---- fmt ----------------------------------------------------------------------------------------
-
-func (x *Exec) format(f Value, args []Value) Value {
-	var sb strings.Builder
-	if s, ok := f.(string); ok {
-		sb.WriteString(s)
-	} else {
-		sb.WriteString("<symbolic format>")
-	}
-	for _, a := range args {
-		sb.WriteString(" ")
-		if it, ok := a.(Iface); ok {
-			sb.WriteString(x.fmtValue(it))
-		} else {
-			sb.WriteString(valString(a))
-		}
-	}
-	return sb.String()
-}
 
 func (x *Exec) fmtValue(it Iface) string {
 	if it.t == nil {
